@@ -75,13 +75,14 @@ def lemma_send_stack_order():
     OUTER layer, so each attempt runs through the tracing layer.  The decorator expressions of the real class bodies
     are evaluated; the layers themselves are under contract (RetriedWrapper, TracedWrapper, RawSendSingle).  This pins
     the composition the assumed SendStack contract describes."""
+    # (the names of the inner wrapper functions are irrelevant: only WHICH decorator produced each layer is pinned)
     s = method_value('pjrpc.client.client:AbstractClient._send')
-    assert closure_func(s) == 'pjrpc.client.client:AbstractClient.retried.<locals>.wrapper'
+    assert closure_func(s).startswith('pjrpc.client.client:AbstractClient.retried.<locals>.')
     t = closure_var(s, 'method')
-    assert closure_func(t) == 'pjrpc.client.client:AbstractClient.traced.<locals>.wrapper'
+    assert closure_func(t).startswith('pjrpc.client.client:AbstractClient.traced.<locals>.')
     assert closure_func(closure_var(t, 'method')) == 'pjrpc.client.client:AbstractClient._send'
     a = method_value('pjrpc.client.client:AbstractAsyncClient._send')
-    assert closure_func(a) == 'pjrpc.client.client:AbstractAsyncClient.retried.<locals>.wrapper'
+    assert closure_func(a).startswith('pjrpc.client.client:AbstractAsyncClient.retried.<locals>.')
     u = closure_var(a, 'method')
-    assert closure_func(u) == 'pjrpc.client.client:AbstractAsyncClient.traced.<locals>.wrapper'
+    assert closure_func(u).startswith('pjrpc.client.client:AbstractAsyncClient.traced.<locals>.')
     assert closure_func(closure_var(u, 'method')) == 'pjrpc.client.client:AbstractAsyncClient._send'
